@@ -193,6 +193,22 @@ impl<'tcx> Fx<'tcx> {
         with_no_trimmed_paths!(ty.to_string())
     }
 
+    /// evaluate array lengths given as named constants ([u8; N] -> [u8; 8])
+    fn norm_consts(&self, t: Ty<'tcx>) -> Ty<'tcx> {
+        let tcx = self.tcx;
+        match t.kind() {
+            ty::Array(elem, len) => {
+                let env = TypingEnv::fully_monomorphized();
+                let len2 = tcx.try_normalize_erasing_regions(env, ty::Unnormalized::new_wip(*len)).unwrap_or(*len);
+                match len2.try_to_target_usize(tcx) {
+                    Some(n) => Ty::new_array(tcx, self.norm_consts(*elem), n),
+                    None => t,
+                }
+            }
+            _ => t,
+        }
+    }
+
     fn meta(&self) -> J {
         let tcx = self.tcx;
         let sm = tcx.sess.source_map();
@@ -301,9 +317,16 @@ impl<'tcx> Fx<'tcx> {
                             .iter()
                             .map(|f| {
                                 let fty = tcx.type_of(f.did).instantiate_identity().skip_norm_wip();
+                                let fty_norm = tcx
+                                    .try_normalize_erasing_regions(TypingEnv::fully_monomorphized(), ty::Unnormalized::new_wip(fty))
+                                    .ok()
+                                    .filter(|_| tcx.generics_of(did).count() == 0)
+                                    .map(|t| self.norm_consts(t))
+                                    .unwrap_or(fty);
                                 J::obj(vec![
                                     ("name", J::Str(f.name.to_string())),
                                     ("ty", J::Str(self.tys(fty))),
+                                    ("ty_norm", J::Str(self.tys(fty_norm))),
                                     (
                                         "vis",
                                         J::Str(match f.vis {
